@@ -1,4 +1,5 @@
 use super::{CssSelectorSet, SelectorSet};
+use crate::Invalid;
 
 /// A full set of selectors with a separate backref.
 #[derive(Clone, Debug, PartialEq, Eq)]
@@ -25,17 +26,23 @@ impl SelectorCtx {
     }
 
     /// Evaluate selectors inside this context.
-    pub(crate) fn nest(&self, selectors: SelectorSet) -> CssSelectorSet {
+    pub(crate) fn nest(
+        &self,
+        selectors: SelectorSet,
+    ) -> Result<CssSelectorSet, Invalid> {
         self.s.nest(selectors, self.get_backref())
     }
-    pub(crate) fn at_root(&self, selectors: SelectorSet) -> Self {
+    pub(crate) fn at_root(
+        &self,
+        selectors: SelectorSet,
+    ) -> Result<Self, Invalid> {
         let backref = self.get_backref();
-        Self {
+        Ok(Self {
             s: CssSelectorSet {
-                s: selectors.resolve_ref(backref),
+                s: selectors.resolve_ref(backref)?,
             },
             backref: backref.clone(),
-        }
+        })
     }
     pub(crate) fn get_backref(&self) -> &CssSelectorSet {
         if self.s.is_root() {
